@@ -73,6 +73,51 @@ CHECKS = {
         technique="TLA+ action property (frame on the other configuration); replay into code exposes aliasing; TLC trace validation",
         design="5/C13",
     ),
+    "C02": dict(
+        engine="PersistMachine",
+        text="TLC checks C02_Reproduces (after to_tree -> document -> load into a fresh configuration every persistent value is "
+        "equal, modulo exactly the two stated normalisations, elementwise) and C02_PlainTree (plain data, string keys, no virtual "
+        "keys unless asked) on PersistMachine over all histories of assignments, round trips in each of the five formats "
+        "(continuing with the re-loaded configuration) and renders; every transition of the level<=2 graph and of simulated "
+        "behaviours is executed on a real Config: real dumps in the event's format, real loads into a fresh Config with the same "
+        "key file, the real tree abstracted with independent cipher/hash implementations and compared leaf by leaf.",
+        note="Bounded instance MC_Persist/SchemaP (scalars, bytes, digest, secrets with methods xor/aes/best, typed list/dict of bytes and secrets, nested schema, config type naming its own key file with a nested schema below it, list of schemas with secrets, virtual fields), fixed candidate values, depth 3/4; formats are a typed channel in the specification (the real encoders run in conformance); ciphertexts/digests abstracted by independent AES/XOR/hashlib implementations.",
+        technique="TLA+ machine of to_tree/load_tree/round trip + TLC action property; transition replay with real documents in all five formats",
+        design="5/C02",
+    ),
+    "C03": dict(
+        engine="PersistMachine",
+        text="TLC checks C03_KeyIsNearest (every encrypted leaf names a concrete method and the key file of the nearest "
+        "ancestor - by containment - that names one) and C03_NoPlaintext on PersistMachine; in conformance the harness decides "
+        "with an independent AES-256-CBC / XOR implementation WHICH key file encrypted each real ciphertext, records every key "
+        "file the library opens or creates during dumps and loads (default key path redirected into the scratch directory) and "
+        "searches the raw document bytes for secret plaintexts; all three are compared with the specification's event.",
+        note="Bounded instance MC_Persist/SchemaP (scalars, bytes, digest, secrets with methods xor/aes/best, typed list/dict of bytes and secrets, nested schema, config type naming its own key file with a nested schema below it, list of schemas with secrets, virtual fields), fixed candidate values, depth 3/4; formats are a typed channel in the specification (the real encoders run in conformance); ciphertexts/digests abstracted by independent AES/XOR/hashlib implementations.",
+        technique="TLA+ invariants on key resolution over the schema tree; replay with real key files, independent decryption decides the key used",
+        design="5/C03",
+    ),
+    "C10": dict(
+        engine="PersistMachine",
+        text="TLC checks C10_Mask (with a mask every non-empty sensitive value at every depth - root, sub-schema, config type, "
+        "configuration inside a list, sensitive virtual field - is replaced by the mask (one character repeated to the value's "
+        "length, otherwise verbatim) and every other leaf equals the unmasked rendering) for masks none/''/'*'/'XX' with and "
+        "without virtual output over all reachable states; every Render transition is executed as to_tree(virtual, sensitive_mask) "
+        "on a real Config and compared leaf by leaf.",
+        note="Bounded instance MC_Persist/SchemaP (scalars, bytes, digest, secrets with methods xor/aes/best, typed list/dict of bytes and secrets, nested schema, config type naming its own key file with a nested schema below it, list of schemas with secrets, virtual fields), fixed candidate values, depth 3/4; formats are a typed channel in the specification (the real encoders run in conformance); ciphertexts/digests abstracted by independent AES/XOR/hashlib implementations.",
+        technique="TLA+ invariant over to_tree with mask, stated per field independently of the rendering operator; replay into code",
+        design="5/C10",
+    ),
+    "C17": dict(
+        engine="CincoContainers",
+        text="TLC checks C17_Same / C17_Return / C17_StillTyped / C17_Validated on CincoContainers: the typed list/dict as "
+        "implemented next to a plain list/dict receiving the same method with normalised arguments, over every sequence of 25 list "
+        "and 13 dict methods with arguments of every iterable kind to the depth bound; every transition is executed on a real "
+        "ListProxy/DictProxy AND on a real plain list/dict, so the specification's model of the built-ins is itself checked.",
+        note="Item/key/value fields and argument pools are fixed per instance (IntField(min=0) items, another typed list of the same "
+        "storage type, upper-casing string keys); structural equality of items; result type of proxy*n and slice reads left free.",
+        technique="TLA+ differential model (typed container vs built-in) + TLC invariants; transition replay on real proxies and real built-ins",
+        design="5/C17",
+    ),
 }
 
 PENDING_REASON = "check not built yet in this round (planned, see DESIGN.md section 5); nothing is claimed for it"
